@@ -295,20 +295,23 @@ fn check_points(
         }
         let Some((g, s, f)) = diff else { continue };
         bad += 1;
-        let key = if rules.len() >= 65 {
-            "overlay-wrong-result-ge-65-rules"
-        } else if inter == Interf::Conflict {
+        // first the four situations that are known findings (they can occur in any input), then the
+        // repaired classes by what distinguishes their inputs, so that they are reported under their
+        // own key should they ever return
+        let key = if inter == Interf::Conflict {
             "later-rule-wins-conflicting-subs"
         } else if inter == Interf::Chain {
             "chained-subs-not-applied-in-rule-order"
-        } else if has_axis_twice {
-            "two-conditions-on-one-axis-only-last-kept"
-        } else if has_empty_region {
-            "rule-without-condition-set-erases-earlier-rules"
         } else if touching(p, rules, u) {
             "touching-edges-location-loses-rule"
         } else if let Some(k) = collision_at(p) {
             k
+        } else if rules.len() >= 65 {
+            "overlay-wrong-result-ge-65-rules"
+        } else if has_axis_twice {
+            "two-conditions-on-one-axis-only-last-kept"
+        } else if has_empty_region {
+            "rule-without-condition-set-erases-earlier-rules"
         } else {
             "wrong-substitutions-at-location"
         };
